@@ -280,6 +280,38 @@ fn install_prior(sig: c_int, kind: u8) {
 }
 
 /// The simulated kernel: deliver `sig` to the calling (virtual) thread now.
+/// The record a simulated kernel hands to the dispatcher: `si_signo`, `si_errno = 0`,
+/// `si_code = SI_USER`, `si_pid` = unique delivery id (offset 16 on Linux x86-64 / aarch64),
+/// `si_uid` and every remaining byte of the 128-byte structure a pattern derived from the id, so
+/// that a record which is not a bytewise copy of exactly one delivery's information is recognisable.
+pub fn fill_info(info: &mut siginfo_t, sig: c_int, id: i32) {
+    let bytes = unsafe { std::slice::from_raw_parts_mut(info as *mut siginfo_t as *mut u8, std::mem::size_of::<siginfo_t>()) };
+    for (i, b) in bytes.iter_mut().enumerate() {
+        *b = if i < 24 { 0 } else { (id as u32).wrapping_mul(31).wrapping_add(i as u32 * 7) as u8 | 1 };
+    }
+    info.si_signo = sig;
+    info.si_code = libc::SI_USER;
+    unsafe {
+        *((info as *mut siginfo_t as *mut i32).add(4)) = id;
+        *((info as *mut siginfo_t as *mut u32).add(5)) = info_uid(id);
+    }
+}
+
+pub fn info_uid(id: i32) -> u32 {
+    (id as u32).wrapping_mul(2654435761) >> 4
+}
+
+/// `None` if `rec` is the bytewise image of what `fill_info` builds for (its own signal, its own id).
+pub fn info_mismatch(rec: &siginfo_t) -> Option<usize> {
+    let id = unsafe { *((rec as *const siginfo_t as *const i32).add(4)) };
+    let mut want: siginfo_t = unsafe { std::mem::zeroed() };
+    fill_info(&mut want, rec.si_signo, id);
+    let n = std::mem::size_of::<siginfo_t>();
+    let a = unsafe { std::slice::from_raw_parts(rec as *const siginfo_t as *const u8, n) };
+    let b = unsafe { std::slice::from_raw_parts(&want as *const siginfo_t as *const u8, n) };
+    (0..n).find(|i| a[*i] != b[*i])
+}
+
 pub fn sim_deliver(sig: c_int, solo: bool) {
     let blocked = DELIV_STACK.with(|s| s.borrow().iter().any(|x| x.1 == sig));
     if blocked {
@@ -294,10 +326,7 @@ pub fn sim_deliver(sig: c_int, solo: bool) {
     let mut info: siginfo_t = unsafe { std::mem::zeroed() };
     info.si_signo = sig;
     info.si_code = libc::SI_USER;
-    unsafe {
-        // si_pid lives at offset 16 on Linux x86-64 / aarch64
-        *((&mut info as *mut siginfo_t as *mut i32).add(4)) = id as i32;
-    }
+    fill_info(&mut info, sig, id as i32);
     let ctx = (0x5150_0000usize + id as usize) as *mut c_void;
     let target = if h == registry::verif::handler_addr() {
         1
